@@ -228,11 +228,15 @@ Plan gen_c12(sk::Rng& r, Tier) {
     p.knobs["id_a"] = static_cast<std::int64_t>(r.below(200)) + 1;
     p.knobs["id_b"] = static_cast<std::int64_t>(r.below(200)) + 1;
     p.knobs["difficulty"] = r.pick<std::int64_t>({0, 2, 6});
+    // rotation is C39's subject and normally out of the way; in a third of the runs it is short, so that a re-handshake can arrive
+    // while the receiver's tick loop is rotating that very session ("race" operations)
+    p.knobs["rotation"] = r.pick<std::int64_t>({3600, 3600, 5});  // 5 s is the shortest interval the node accepts
     const int n = static_cast<int>(r.range(2, 8));
     for (int i = 0; i < n; ++i) {
         Op op;
         const auto c = r.below(100);
-        if (c < 30) { op.k = "api_handshake"; op.a = {static_cast<std::int64_t>(r.below(3))}; }          // 0: A<-B, 1: B<-A, 2: both
+        if (p.knobs["rotation"] < 3600 && c < 60) { op.k = "race"; op.a = {static_cast<std::int64_t>(r.below(2)), r.pick<std::int64_t>({10, 0, -2, -10, -30, -80, -150, -300}), r.pick<std::int64_t>({1500, 4000, 12000})}; }  // initiator, lead over the receiver's tick (ms; negative = after it began), preemption rate
+        else if (c < 30) { op.k = "api_handshake"; op.a = {static_cast<std::int64_t>(r.below(3))}; }          // 0: A<-B, 1: B<-A, 2: both
         else if (c < 50) { op.k = "wire_connect"; op.a = {static_cast<std::int64_t>(r.below(2))}; }       // who connects
         else if (c < 65) { op.k = "bad_public"; op.a = {static_cast<std::int64_t>(r.below(2)), static_cast<std::int64_t>(r.below(8)), static_cast<std::int64_t>(r.below(2))}; }
         else if (c < 75) { op.k = "restart"; op.a = {static_cast<std::int64_t>(r.below(2)), static_cast<std::int64_t>(r.below(2))}; }  // who, change seed?
@@ -252,9 +256,10 @@ void exec_c12(const Plan& p, Ctx& ctx) {
         en::Config c = base_config(seed[i]);
         c.handshake_pow_difficulty = static_cast<std::uint8_t>(difficulty);
         c.handshake_cooldown = seconds(5);
-        c.key_rotation_interval = seconds(3600);
+        c.key_rotation_interval = seconds(p.knob("rotation", 3600));
         return c;
     };
+    const std::int64_t rotation_ns = std::max<std::int64_t>(p.knob("rotation", 3600), 5) * kSec;
     std::unique_ptr<NodeProc> nodes[2];
     std::vector<std::unique_ptr<NodeProc>> graveyard;  // crashed instances (their processes are dead)
     int generation[2] = {0, 0};
@@ -274,6 +279,14 @@ void exec_c12(const Plan& p, Ctx& ctx) {
         std::optional<std::array<std::uint8_t, 32>> ka, kb;
         nodes[0]->run([&](en::Node& n) { ka = n.session_key(ids[1]); });
         nodes[1]->run([&](en::Node& n) { kb = n.session_key(ids[0]); });
+        if (rotation_ns < 3600 * kSec) {
+            // with a short rotation the two ends switch at their own ticks (C39's subject): only compare keys of the same rotation period
+            std::uint64_t ca = 0, cb = 0;
+            nodes[0]->run([&](en::Node& n) { auto it = n.key_manager_.contexts_.find(en::peer_id_to_string(ids[1])); if (it != n.key_manager_.contexts_.end()) ca = it->second.counter; });
+            nodes[1]->run([&](en::Node& n) { auto it = n.key_manager_.contexts_.find(en::peer_id_to_string(ids[0])); if (it != n.key_manager_.contexts_.end()) cb = it->second.counter; });
+            nodes[0]->run([&](en::Node& n) { ka = n.session_key(ids[1]); });
+            if (ca != cb || ca != 0) { ctx.probe("compare_skipped_rotation_in_progress"); return; }
+        }
         ctx.probe("mutual_success_compared");
         if (!ka || !kb) { ctx.violate("C12.key_missing", fmt("both sides accepted the other's handshake but a session key is missing (%s)", when)); return; }
         if (*ka != *kb) ctx.violate("C12.keys_differ", fmt("both sides accepted the other's handshake yet hold different session keys (%s)", when));
@@ -306,6 +319,82 @@ void exec_c12(const Plan& p, Ctx& ctx) {
                 ok_flag[i] = ok;
             }
             compare("after API handshake");
+        } else if (op.k == "race") {
+            // The way the node itself re-establishes a session (request_chunk: local handshake, then connect): the initiator restarts its key
+            // schedule and connects; the receiver accepts the offer on its accept thread while its tick loop is rotating the keys of that
+            // very session, with long preemptions right after mutex releases. Afterwards both ends must count rotations from this handshake.
+            const int i = static_cast<int>(op.at(0)), o = 1 - i;
+            std::uint32_t pub[2]; publics(pub);
+            bool fresh = true;
+            for (int k = 0; k < 2; ++k) {  // both ends know each other (and have for at least one rotation period by the time of the race)
+                std::optional<std::uint64_t> work;
+                nodes[1 - k]->run([&](en::Node& n) { work = n.generate_handshake_work(ids[k]); });
+                bool ok = false;
+                if (work) nodes[k]->run([&](en::Node& n) { ok = n.perform_handshake(ids[1 - k], pub[1 - k], *work); });
+                ok_flag[k] = ok; fresh = fresh && ok;
+            }
+            if (!fresh) { ctx.probe("race_setup_failed"); continue; }
+            std::optional<std::uint64_t> work_o;
+            nodes[o]->run([&](en::Node& n) { work_o = n.generate_handshake_work(ids[i]); });
+            if (!work_o) continue;
+            // the receiver's first tick at which a rotation of this session is due
+            const std::int64_t due = sk::now_ns() + rotation_ns;
+            std::int64_t tick_at = nodes[o]->actor.next_tick;
+            while (tick_at < due) tick_at += nodes[o]->actor.tick_period;
+            // long preemptions after mutex releases begin shortly before that tick (a tick takes no simulated time unless it is preempted);
+            // the initiator starts at the seeded offset from the tick
+            if (tick_at - 20 * kMs > sk::now_ns()) sk::sleep_ns(tick_at - 20 * kMs - sk::now_ns());
+            sk::set_deschedule_after_unlock(static_cast<std::uint32_t>(op.at(2)), 300 * kMs);
+            ctx.fault("preemption_after_mutex_release_aimed_at_rehandshake");
+            const std::int64_t go = tick_at - op.at(1) * kMs;
+            if (go > sk::now_ns()) sk::sleep_ns(go - sk::now_ns());
+            const std::int64_t t_start = sk::now_ns();
+            bool connected = false;
+            nodes[i]->run([&](en::Node& n) { if (n.perform_handshake(ids[o], pub[o], *work_o)) connected = n.connect_peer(ids[o], ip_text(nodes[o]->actor.host), nodes[o]->port); }, 60 * kSec);
+            sk::sleep_ns(700 * kMs);
+            sk::set_deschedule_after_unlock(0, 0);
+            sk::sleep_ns(400 * kMs);
+            if (!connected) { ctx.probe("race_connect_failed"); continue; }
+            std::optional<bool> accepted;
+            nodes[o]->run([&](en::Node& n) { accepted = n.last_handshake_success(ids[i]); });
+            if (!accepted || !*accepted) { ctx.probe("race_offer_not_accepted"); continue; }
+            ctx.boundary("rehandshake_while_the_receiver_rotates");
+            struct Ctxv { bool present = false; std::int64_t established = 0; std::uint64_t counter = 0; std::array<std::uint8_t, 32> key{}; } cv[2];
+            std::int64_t t_read = 0;
+            for (int k = 0; k < 2; ++k)
+                nodes[k]->run([&, k](en::Node& n) {
+                    std::scoped_lock lock(n.key_manager_.mutex_);
+                    auto it = n.key_manager_.contexts_.find(en::peer_id_to_string(ids[1 - k]));
+                    if (it == n.key_manager_.contexts_.end()) return;
+                    cv[k].present = true; cv[k].established = steady_to_sim(it->second.established); cv[k].counter = it->second.counter; cv[k].key = it->second.current_key;
+                    t_read = sk::now_ns();
+                });
+            if (!cv[0].present || !cv[1].present) { ctx.violate("C12.key_missing", "both sides accepted the other's handshake but a session key is missing (after a re-handshake during rotation)"); continue; }
+            // both ends accepted the other's offer after t_start: each counts rotation periods from that acceptance. An end whose key schedule
+            // still starts before t_start is on the previous session's schedule: its key differs from the peer's in every period from now on.
+            for (int k = 0; k < 2; ++k)
+                if (cv[k].established + 5 * kMs < t_start)
+                    ctx.violate("C12.keys_differ", fmt("node %c accepted the other's handshake at %.3f s or later, yet its session key still belongs to the schedule started at %.3f s (rotation period %llu of the old session; the peer is in period %llu of the new one; keys %s)",
+                                                        k == 0 ? 'A' : 'B', t_start / 1e9, cv[k].established / 1e9, (unsigned long long)cv[k].counter, (unsigned long long)cv[1 - k].counter, cv[0].key == cv[1].key ? "equal at this instant" : "differ"));
+            if (cv[0].counter == cv[1].counter && cv[0].established + 5 * kMs >= t_start && cv[1].established + 5 * kMs >= t_start) {
+                ctx.probe("race_keys_compared_in_same_period");
+                if (cv[0].key != cv[1].key) ctx.violate("C12.keys_differ", fmt("both sides accepted the other's handshake and are in rotation period %llu of the new session, yet hold different keys", (unsigned long long)cv[0].counter));
+            }
+            (void)t_read;
+            // and the key each end's transport session en/decrypts with is the session key it holds
+            for (int k = 0; k < 2; ++k) {
+                std::optional<std::array<std::uint8_t, 32>> held, used;
+                nodes[k]->run([&, k](en::Node& n) {
+                    held = n.session_key(ids[1 - k]);
+                    std::scoped_lock lock(n.sessions_.sessions_mutex_);
+                    auto it = n.sessions_.sessions_.find(en::peer_id_to_string(ids[1 - k]));
+                    if (it != n.sessions_.sessions_.end() && it->second && it->second->running.load()) { std::scoped_lock kl(it->second->key_mutex); used = it->second->key; }
+                });
+                if (held && used) {
+                    ctx.probe("race_transport_key_compared");
+                    if (*held != *used) ctx.violate("C12.transport_uses_another_key", fmt("node %c: after a re-handshake that arrived while its tick loop was rotating, the open session en/decrypts with a key that is not the session key the node holds", k == 0 ? 'A' : 'B'));
+                }
+            }
         } else if (op.k == "wire_connect") {
             const int i = static_cast<int>(op.at(0)), o = 1 - i;
             if (!ok_flag[i]) continue;  // the connector must know the responder's public key first
